@@ -1,6 +1,7 @@
 package main
 
 import (
+	"regexp"
 	"fmt"
 	"go/types"
 	"sort"
@@ -481,11 +482,65 @@ func (r *Run) lemmaAxiom(name string) (string, error) {
 		return "", fmt.Errorf("unknown lemma %s", name)
 	}
 	vals, decls := r.lemmaParams(lm, "!l", true)
+	// "instance p = q": use the instance of the lemma in which p is q (every instance of a proved lemma holds)
+	for p, q := range lm.Inst {
+		if v, ok := vals[q]; ok {
+			vals[p] = v
+			var keep []string
+			for _, d := range decls {
+				if !strings.HasPrefix(d, "("+p+"!l ") {
+					keep = append(keep, d)
+				}
+			}
+			decls = keep
+		}
+	}
 	req, ens, _, err := r.lemmaBody(lm, vals)
 	if err != nil {
 		return "", err
 	}
-	return fmt.Sprintf("(forall (%s) (=> %s %s))", strings.Join(decls, " "), req, and(ens...)), nil
+	body := fmt.Sprintf("(=> %s %s)", req, and(ens...))
+	if pat := lemmaPattern(decls, ens); lm.Trigger && pat != "" {
+		return fmt.Sprintf("(forall (%s) (! %s :pattern (%s)))", strings.Join(decls, " "), body, pat), nil
+	}
+	return fmt.Sprintf("(forall (%s) %s)", strings.Join(decls, " "), body), nil
+}
+
+// lemmaPattern: when the conclusion consists of spec-function applications whose arguments are all variables or
+// literals and which together mention every bound variable, use them as the (multi-)pattern of the axiom.
+func lemmaPattern(decls []string, ens []string) string {
+	covers := func(text string) bool {
+		for _, d := range decls {
+			name := strings.Fields(strings.TrimPrefix(d, "("))[0]
+			if !strings.Contains(text, " "+name+" ") && !strings.Contains(text, " "+name+")") {
+				return false
+			}
+		}
+		return true
+	}
+	appRe := regexp.MustCompile(`\(spec\.[A-Za-z0-9_]+( [^() ]+)+\)`)
+	var apps []string
+	seen := map[string]bool{}
+	for _, e := range ens {
+		for _, a := range appRe.FindAllString(e, -1) {
+			if !seen[a] {
+				seen[a] = true
+				apps = append(apps, a)
+			}
+		}
+	}
+	if len(apps) > 0 && len(apps) <= 3 && covers(strings.Join(apps, " ")+" ") {
+		return strings.Join(apps, " ")
+	}
+	// otherwise: a single top-level application (arguments may be compound) that mentions every variable
+	for _, e := range ens {
+		for _, a := range topSpecApps(e) {
+			if covers(a) {
+				return a
+			}
+		}
+	}
+	return ""
 }
 
 func (e *Engine) verifyLemma(name string) *FuncResult {
@@ -514,7 +569,49 @@ func (e *Engine) verifyLemma(name string) *FuncResult {
 	if dec != "" {
 		// induction hypothesis: the lemma for every instance with a smaller non-negative measure
 		bvals, decls := r.lemmaParams(lm, "!ih", true)
-		breq, bens, bdec, err := r.lemmaBody(lm, bvals)
+		// parameters named after "fixed" keep their outer value: a weaker hypothesis, easier to instantiate
+		for _, fx := range lm.Fixed {
+			if v, ok := vals[fx]; ok {
+				bvals[fx] = v
+				var keep []string
+				for _, d := range decls {
+					if strings.HasPrefix(d, "("+fx+"!ih ") || strings.HasPrefix(d, "("+fx+".") {
+						continue
+					}
+					keep = append(keep, d)
+				}
+				decls = keep
+			}
+		}
+		if len(decls) == 0 {
+			decls = []string{"(dummy!ih Bool)"}
+		}
+		// requires clauses that mention only fixed parameters already hold (they are in the guard): drop them
+		// from the hypothesis' antecedent, so that no nested quantifier has to be re-proved to use it
+		ihLm := lm
+		if len(lm.Fixed) > 0 {
+			cp := *lm
+			cp.Requires = nil
+			for _, cl := range lm.Requires {
+				varying := false
+				for _, p := range lm.Params {
+					isFixed := false
+					for _, fx := range lm.Fixed {
+						if fx == p.Name {
+							isFixed = true
+						}
+					}
+					if !isFixed && regexp.MustCompile(`\b`+regexp.QuoteMeta(p.Name)+`\b`).MatchString(cl.Text) {
+						varying = true
+					}
+				}
+				if varying {
+					cp.Requires = append(cp.Requires, cl)
+				}
+			}
+			ihLm = &cp
+		}
+		breq, bens, bdec, err := r.lemmaBody(ihLm, bvals)
 		if err != nil {
 			res.Err = err
 			return res
@@ -533,4 +630,27 @@ func (e *Engine) verifyLemma(name string) *FuncResult {
 		o.Alt = r.ctx.queryMode([]string{o.Guard, not(o.Goal)}, nil, 5)
 	}
 	return res
+}
+
+// topSpecApps returns the outermost "(spec.f ...)" applications in an SMT term.
+func topSpecApps(t string) []string {
+	var out []string
+	for i := 0; i < len(t); i++ {
+		if strings.HasPrefix(t[i:], "(spec.") {
+			depth := 0
+			for j := i; j < len(t); j++ {
+				if t[j] == '(' {
+					depth++
+				} else if t[j] == ')' {
+					depth--
+					if depth == 0 {
+						out = append(out, t[i:j+1])
+						i = j
+						break
+					}
+				}
+			}
+		}
+	}
+	return out
 }
